@@ -70,6 +70,8 @@ def _case_class(c):
     extra = ""
     if c.get("gun") == "connect":
         extra = " gun=connect cssl=%s cstatus=%s" % (c["cssl"], c["cstatus"])
+    if c.get("tname"):
+        extra = " target=by-name"
     if "mw" in c:
         extra = " mw=header/date(name=%s,loc=%s)" % (c["mw"]["name"] or "default", c["mw"]["loc"] or "UTC")
     if "side" in c:
@@ -154,10 +156,11 @@ def run(tier, v):
             ("HttpWireMC", "HttpWire_neg_mw_twice.cfg"), ("HttpWireMC", "HttpWire_neg_side_changes.cfg"),
             ("HttpConnMC", "HttpConn_neg_noreuse.cfg"), ("HttpConnMC", "HttpConn_neg_idledrop.cfg"),
             ("HttpConnMC", "HttpConn_neg_ownclient.cfg"), ("HttpConnMC", "HttpConn_neg_noexpire.cfg"),
-            ("HttpWireMC", "HttpWire_neg_shared_cursor.cfg")]
+            ("HttpWireMC", "HttpWire_neg_shared_cursor.cfg"), ("HttpWireMC", "HttpWire_neg_framing_chunked.cfg"),
+            ("HttpWireMC", "HttpWire_neg_target_resolved.cfg")]
     if not thorough:
         # quick: one negative control per mechanism; the thorough tier runs all of them
-        skip = ("host_target", "opt_always", "mw_twice", "side_changes", "shared1", "noreuse")
+        skip = ("host_target", "opt_always", "mw_twice", "side_changes", "shared1", "noreuse", "empty_undefined")
         negs = [(m, c) for m, c in negs if not any(k in c for k in skip)]
         pos = [(m, c) for m, c in pos if "shared1" not in c]
     vlib.spec_copy()
@@ -226,6 +229,7 @@ def run(tier, v):
         "middleware_cases": sum(1 for c in gen if "mw" in c["c"]), "side_channel_cases": sum(1 for c in gen if "side" in c["c"]),
         "conn_runs_connect_gun": sum(1 for r in runs if r.get("gun") == "connect"),
         "conn_runs_shared_client": sum(1 for r in runs if r.get("shared")),
+        "named_target_cases": sum(1 for c in gen if c["c"].get("tname")),
         "reuse_cases": len(reuse_ids), "reuse_requests_checked": sum(1 for r in rows if r["id"] in reuse_ids),
         "conn_runs_idle_expiry": sum(1 for r in runs if r.get("idle_ms") and r.get("gap_ms", 0) > r["idle_ms"]),
         "single_entry_cases": len(gen) - len(files) - len(reuse_ids), "multi_entry_files": len(files), "file_entries_checked": len(rows) - len(single),
@@ -247,8 +251,10 @@ def run(tier, v):
     return "model_checking", cov, [
         "case alphabets: header names X-A (entry+option), x-c/X-C (same name, other spelling), User-Agent, X-B, option Host; "
         "RFC-valid request URIs; printable bodies; methods GET/POST/PURGE (+DELETE/HEAD/OPTIONS thorough)",
-        "extra request headers tolerated at the target: Go transport defaults only (User-Agent if the entry has none, "
-        "Content-Length, Transfer-Encoding, Accept-Encoding iff compression enabled)",
+        "extra request headers tolerated at the target: User-Agent if the entry has none, Accept-Encoding iff compression enabled; "
+        "framing is decided exactly: Content-Length = body length (0 for a body-less POST/PUT/PATCH, absent otherwise), never chunked",
+        "named target: localhost (must resolve to the loopback address the targets listen on); http gun only - the connect "
+        "factory overwrites its target with the resolved address by design",
         "connection part: sequential shots per instance, target keeps connections open, loopback; N <= 4 instances; runs with the "
         "documented client options away from their defaults (response-header-timeout 150 ms, idle-conn-timeout 10 min, ...) and "
         "idle gaps >= 4 x response-header-timeout between shots; an exchange that fails (possible under load with the small "
